@@ -9,3 +9,4 @@ pub mod worst;
 pub mod c06;
 pub mod c08;
 pub mod c09;
+pub mod c10;
